@@ -336,7 +336,7 @@ theorem act_inv {pend} {s : St} (a : Act) (h : Inv pend s) : Inv pend (act a s) 
     · exact setDesc_inv _ _ (h.congr rfl rfl rfl rfl rfl rfl rfl)
     · exact h
   | wakeup => exact sigWakeup_inv h
-  | exit => exact h.congr rfl rfl rfl rfl rfl rfl rfl
+  | exit => exact sigWakeup_inv (h.congr rfl rfl rfl rfl rfl rfl rfl)
   | xexit => exact sigWakeup_inv (h.congr rfl rfl rfl rfl rfl rfl rfl)
 
 theorem runActs_inv {pend} (as : List Act) {s : St} (h : Inv pend s) : Inv pend (runActs as s) := by
@@ -491,7 +491,8 @@ theorem act_ext (a : Act) (s : St) : Ext s (act a s) := by
         (setDesc_ext _ _ _)
     · exact Ext.refl s
   | wakeup => exact sigWakeup_ext s
-  | exit => exact Ext.of_eq rfl rfl rfl rfl
+  | exit =>
+    exact (Ext.of_eq (s := s) (t := { s with toExit := 1 }) rfl rfl rfl rfl).trans (sigWakeup_ext _)
   | xexit =>
     exact (Ext.of_eq (s := s) (t := { s with toExit := 2 }) rfl rfl rfl rfl).trans (sigWakeup_ext _)
 
